@@ -45,6 +45,34 @@ def _body(fn: ast.FunctionDef) -> List[ast.stmt]:
     return b
 
 
+class _DeAnn(ast.NodeTransformer):
+    """`x: T = v` is `x = v`; a bare `x: T` declares nothing at run time (inside functions)."""
+    def visit_AnnAssign(self, node):
+        if node.value is None:
+            return ast.copy_location(ast.Pass(), node)
+        return ast.copy_location(ast.Assign(targets=[node.target], value=node.value), node)
+
+    def visit_ClassDef(self, node):
+        return node
+
+
+def _deannotate_stmts(stmts: List[ast.stmt]) -> List[ast.stmt]:
+    if not any(isinstance(n, ast.AnnAssign) for st in stmts for n in ast.walk(st)):
+        return stmts
+    out = [_DeAnn().visit(st) for st in stmts]
+    for st in out:
+        ast.fix_missing_locations(st)
+    return out
+
+
+def deannotate(fn: ast.FunctionDef) -> ast.FunctionDef:
+    if not any(isinstance(n, ast.AnnAssign) for n in ast.walk(fn)):
+        return fn
+    new = copy.deepcopy(fn)
+    new.body = _deannotate_stmts(new.body)
+    return new
+
+
 def _decos(fn: ast.FunctionDef) -> List[str]:
     out = []
     for d in fn.decorator_list:
@@ -53,6 +81,15 @@ def _decos(fn: ast.FunctionDef) -> List[str]:
         except Exception:
             out.append("?")
     return out
+
+
+def _memo_only(fn: ast.FunctionDef) -> bool:
+    """no decorators besides memoisers (`@lru_cache(maxsize=None)`, `@functools.cache`): the function reads as its body"""
+    for d in fn.decorator_list:
+        t = d.func if isinstance(d, ast.Call) else d
+        if not isinstance(t, (ast.Name, ast.Attribute)) or norm(t).split(".")[-1] not in ("lru_cache", "cache"):
+            return False
+    return True
 
 
 class _Rename(ast.NodeTransformer):
@@ -297,11 +334,11 @@ class Inliner:
                 own = self._module_functions().get(f.id)
                 if f.id in ANCHOR_FUNCTIONS:
                     return None            # a function the rules analyse under its own name stays a call
-                if own is not None and not own.decorator_list and not _is_generator(own) and not self._imported_elsewhere(f.id) \
+                if own is not None and _memo_only(own) and not _is_generator(own) and not self._imported_elsewhere(f.id) \
                         and not any(isinstance(n, (ast.Global, ast.Nonlocal)) for n in ast.walk(own)):
                     # a public-looking helper that no other module of the package imports is a helper of this module, whatever its size
                     return own, False
-                if own is not None and not own.decorator_list and len(_body(own)) <= 5 and not _is_generator(own) \
+                if own is not None and _memo_only(own) and len(_body(own)) <= 5 and not _is_generator(own) \
                         and not any(isinstance(n, (ast.With, ast.Try, ast.For, ast.While, ast.Global, ast.Nonlocal)) for n in ast.walk(own)):
                     return own, False
                 # a small public helper of the package imported by name (`decode_cstring(data)`): at most three statements, no decorators
@@ -309,7 +346,7 @@ class Inliner:
                 if imp and imp[1] and imp[0] in self.repo.by_mod and imp[0].startswith("rv."):
                     other = self.repo.by_mod[imp[0]]
                     for st in other.tree.body:
-                        if isinstance(st, ast.FunctionDef) and st.name == imp[1] and not st.decorator_list and len(_body(st)) <= 5 \
+                        if isinstance(st, ast.FunctionDef) and st.name == imp[1] and _memo_only(st) and len(_body(st)) <= 5 \
                                 and not _is_generator(st) and not any(isinstance(n, (ast.With, ast.Try, ast.For, ast.While, ast.Global)) for n in ast.walk(st)):
                             return self._foreign(st, other), False
             return None
@@ -558,7 +595,7 @@ class Inliner:
         self.counter += 1
         tag = f"__h{self.counter}"
         pre, mapping = self._bind(fn, call, bound)
-        body = copy.deepcopy(_body(fn))
+        body = _deannotate_stmts(copy.deepcopy(_body(fn)))
         fwd = getattr(self, "_forwarded_kw", None)
         if fwd is not None:
             kwn, extra = fwd
@@ -1496,7 +1533,15 @@ def _display_rows(repo: Repo, ci: Optional[ClassInfo], sf: Optional[SourceFile],
         if isinstance(x, (ast.Tuple, ast.List)):
             return all(simple(y) for y in x.elts)
         return False
-    if not all(simple(r) for r in rows):
+    def record_row(x: ast.expr) -> bool:
+        if isinstance(x, ast.Call) and isinstance(x.func, (ast.Name, ast.Attribute)) and all(simple(a) for a in x.args) \
+                and all(k.arg is not None and simple(k.value) for k in x.keywords):
+            try:
+                return bool(record_fields(repo, ci, sf, x.func))
+            except Exception:
+                return False
+        return False
+    if not all(simple(r) or record_row(r) for r in rows):
         return None
     rows = [copy.deepcopy(r) for r in rows]
     if owner is not None:
@@ -2523,10 +2568,20 @@ def desugar_match(fn: ast.FunctionDef) -> ast.FunctionDef:
 
 def normalize(repo: Repo, ci: Optional[ClassInfo], fn: ast.FunctionDef, sf: Optional[SourceFile] = None, aliases: bool = False, **kw) -> ast.FunctionDef:
     """flatten, then unroll (and, on request, expand attribute-chain aliases): the form in which rules read a function."""
-    out = _flatten_only(repo, ci, fn, sf, **kw)
+    out = _flatten_only(repo, ci, deannotate(fn), sf, **kw)
     if any(isinstance(n, ast.Match) for n in ast.walk(out)):
         out = _flatten_only(repo, ci, desugar_match(out), sf, **kw)
     out = desugar_walrus(out)
+    try:
+        out = expand_cached_locals(out)
+        out = desugar_scan_loops(out)
+    except Exception:
+        pass
+    if any(isinstance(n, ast.Call) and isinstance(n.func, ast.Name) for n in ast.walk(out)):
+        try:
+            out = fold_module_callables(repo, ci, sf or (ci.file if ci is not None else None), out)
+        except Exception:
+            pass
     out = desugar_idioms(out)
     out = desugar_takewhile(out)
     out = forward_unpacked_calls(out)
@@ -2547,6 +2602,13 @@ def normalize(repo: Repo, ci: Optional[ClassInfo], fn: ast.FunctionDef, sf: Opti
         except Exception:
             pass
     out = unroll(out, repo, ci, sf)
+    if any(isinstance(n, ast.Attribute) and isinstance(n.value, ast.Call) for n in ast.walk(out)):
+        try:
+            out = fold_record_ctor_fields(repo, ci, sf, out)
+            if any(isinstance(n, (ast.BoolOp, ast.UnaryOp)) for n in ast.walk(out)):
+                out = simplify_constants(out)
+        except Exception:
+            pass
     if any(isinstance(n, ast.For) and isinstance(n.iter, ast.Name) for n in ast.walk(out)) and \
             any(isinstance(n, (ast.GeneratorExp, ast.ListComp)) for n in ast.walk(out)):
         try:
@@ -2558,7 +2620,12 @@ def normalize(repo: Repo, ci: Optional[ClassInfo], fn: ast.FunctionDef, sf: Opti
         out = split_conditional_callee(out)
     again = _flatten_only(repo, ci, out, sf, **kw)
     if ast.dump(again) != ast.dump(out):
-        out = unroll(desugar_walrus(again), repo, ci, sf)
+        again = desugar_walrus(again)
+        try:
+            again = expand_cached_locals(again)
+        except Exception:
+            pass
+        out = unroll(again, repo, ci, sf)
     if aliases:
         changed = False
         for _ in range(3):          # project = self.object; modules = project.modules
@@ -2596,6 +2663,13 @@ def normalize(repo: Repo, ci: Optional[ClassInfo], fn: ast.FunctionDef, sf: Opti
                 out = _Rename(env).visit(out)
                 ast.fix_missing_locations(out)
                 number(out)
+    if the_sf is not None and any(isinstance(n, ast.Compare) and isinstance(n.ops[0], (ast.In, ast.NotIn, ast.LtE)) and isinstance(n.comparators[0], (ast.Name, ast.Attribute))
+                                  or (isinstance(n, ast.Call) and isinstance(n.func, ast.Attribute) and n.func.attr in ("issuperset", "issubset", "difference"))
+                                  for n in ast.walk(out)):
+        try:
+            out = fold_const_collections(repo, ci, the_sf, out)
+        except Exception:
+            pass
     if ci is not None and FOLD_NAMED_INTS:
         cconsts = _class_int_constants(repo, ci)
         if cconsts and any(isinstance(n, ast.Attribute) and n.attr in cconsts for n in ast.walk(out)):
@@ -2818,6 +2892,54 @@ def desugar_getters(fn: ast.FunctionDef) -> ast.FunctionDef:
                 return ast.copy_location(new, node)
             return node
     new = G().visit(copy.deepcopy(fn))
+    ast.fix_missing_locations(new)
+    number(new)
+    return new
+
+
+def fold_module_callables(repo: Repo, ci: Optional[ClassInfo], sf: Optional[SourceFile], fn: ast.FunctionDef) -> ast.FunctionDef:
+    """A module-level name bound to a getter or a flattening function (`_raw = attrgetter("raw_data")`, `_flatten = chain.from_iterable`)
+    reads as that expression where it is called or handed to map(); then `map(attrgetter("a"), X)` reads as `(v.a for v in X)`."""
+    bound = {a.arg for a in fn.args.args + fn.args.kwonlyargs} | {n.id for n in ast.walk(fn) if isinstance(n, ast.Name) and isinstance(n.ctx, (ast.Store, ast.Del))}
+
+    def callable_def(e):
+        if not isinstance(e, ast.Name) or e.id in bound:
+            return None
+        try:
+            d = definition_of(repo, ci, sf, e)
+        except Exception:
+            return None
+        if isinstance(d, ast.Call) and norm(d.func).split(".")[-1] in ("attrgetter", "itemgetter") and not d.keywords \
+                and all(isinstance(a, ast.Constant) for a in d.args):
+            return copy.deepcopy(d)
+        if isinstance(d, ast.Attribute) and norm(d) in ("chain.from_iterable", "itertools.chain.from_iterable"):
+            return copy.deepcopy(d)
+        return None
+    changed = False
+    counter = [0]
+
+    class T(ast.NodeTransformer):
+        def visit_Call(self, node):
+            nonlocal changed
+            node = self.generic_visit(node)
+            d = callable_def(node.func)
+            if d is not None:
+                node.func = d
+                changed = True
+            if isinstance(node.func, ast.Name) and node.func.id == "map" and len(node.args) == 2 and not node.keywords:
+                d = callable_def(node.args[0]) or node.args[0]
+                if isinstance(d, ast.Call) and norm(d.func).split(".")[-1] == "attrgetter" and len(d.args) == 1 and isinstance(d.args[0], ast.Constant) \
+                        and isinstance(d.args[0].value, str) and d.args[0].value.isidentifier():
+                    counter[0] += 1
+                    v = f"_m{counter[0]}"
+                    changed = True
+                    return ast.copy_location(ast.GeneratorExp(
+                        elt=ast.Attribute(value=ast.Name(id=v, ctx=ast.Load()), attr=d.args[0].value, ctx=ast.Load()),
+                        generators=[ast.comprehension(target=ast.Name(id=v, ctx=ast.Store()), iter=node.args[1], ifs=[], is_async=0)]), node)
+            return node
+    new = T().visit(copy.deepcopy(fn))
+    if not changed:
+        return fn
     ast.fix_missing_locations(new)
     number(new)
     return new
@@ -3135,6 +3257,66 @@ def definition_of(repo: Repo, ci: Optional[ClassInfo], sf: Optional[SourceFile],
     return None
 
 
+def fold_const_collections(repo: Repo, ci: Optional[ClassInfo], sf: Optional[SourceFile], fn: ast.FunctionDef) -> ast.FunctionDef:
+    """A module- or class-level name bound to a display of constants (`_IMPLIED = (-1, 0)`, `_FREE = frozenset({-1, 0})`) reads as
+    that display where it is the right-hand side of `in` / `not in` or the set of an `issuperset` / `issubset` / `<=` test."""
+    bound = {a.arg for a in fn.args.args + fn.args.kwonlyargs} | {n.id for n in ast.walk(fn) if isinstance(n, ast.Name) and isinstance(n.ctx, (ast.Store, ast.Del))}
+
+    def lit(e):
+        if isinstance(e, ast.Name) and e.id in bound:
+            return None
+        if not isinstance(e, (ast.Name, ast.Attribute)):
+            return None
+        if isinstance(e, ast.Attribute) and not (isinstance(e.value, ast.Name) and e.value.id not in bound - {"self", "cls"}):
+            return None
+        try:
+            d = definition_of(repo, ci, sf, e)
+        except Exception:
+            return None
+        while isinstance(d, ast.Call) and isinstance(d.func, ast.Name) and d.func.id in ("frozenset", "set", "tuple", "list") and len(d.args) == 1 and not d.keywords:
+            d = d.args[0]
+        if isinstance(d, (ast.Tuple, ast.List, ast.Set)) and d.elts and all(
+                isinstance(x, ast.Constant) or (isinstance(x, ast.UnaryOp) and isinstance(x.op, ast.USub) and isinstance(x.operand, ast.Constant)) for x in d.elts):
+            return ast.Tuple(elts=[copy.deepcopy(x) for x in d.elts], ctx=ast.Load())
+        return None
+    changed = False
+
+    class T(ast.NodeTransformer):
+        def visit_Compare(self, node):
+            nonlocal changed
+            node = self.generic_visit(node)
+            if len(node.ops) == 1 and isinstance(node.ops[0], (ast.In, ast.NotIn, ast.LtE)):
+                if isinstance(node.ops[0], ast.LtE) and not (isinstance(node.left, ast.Call) and norm(node.left.func) in ("set", "frozenset")):
+                    return node
+                l = lit(node.comparators[0])
+                if l is not None:
+                    node.comparators = [l]
+                    changed = True
+            return node
+
+        def visit_Call(self, node):
+            nonlocal changed
+            node = self.generic_visit(node)
+            if isinstance(node.func, ast.Attribute) and len(node.args) == 1 and not node.keywords:
+                if node.func.attr == "issuperset":
+                    l = lit(node.func.value)
+                    if l is not None:
+                        node.func.value = ast.Set(elts=l.elts)
+                        changed = True
+                elif node.func.attr in ("issubset", "difference"):
+                    l = lit(node.args[0])
+                    if l is not None:
+                        node.args = [ast.Set(elts=l.elts)]
+                        changed = True
+            return node
+    new = T().visit(copy.deepcopy(fn))
+    if not changed:
+        return fn
+    ast.fix_missing_locations(new)
+    number(new)
+    return new
+
+
 def record_fields(repo: Repo, ci: Optional[ClassInfo], sf: Optional[SourceFile], ctor: ast.expr) -> Optional[List[str]]:
     """Field names, in positional order, of the record type `ctor` names: `X = namedtuple("X", "a b" | ["a", "b"])` at module level,
     or `class X(NamedTuple)` / `@dataclass class X` with annotated fields and no `__init__` / `__new__` of its own."""
@@ -3157,6 +3339,54 @@ def record_fields(repo: Repo, ci: Optional[ClassInfo], sf: Optional[SourceFile],
                       and "ClassVar" not in norm(st.annotation)]
             return fields or None
     return None
+
+
+def record_defaults(repo: Repo, ci: Optional[ClassInfo], sf: Optional[SourceFile], ctor: ast.expr) -> Dict[str, ast.expr]:
+    """Defaults of the fields of a NamedTuple / dataclass record type written as a class (`omit_if_zero: bool = False`)."""
+    k = repo.class_of_expr(ctor, ci, sf) if (sf is not None or ci is not None) and isinstance(ctor, (ast.Name, ast.Attribute)) else None
+    if k is None:
+        return {}
+    return {st.target.id: st.value for st in k.node.body if isinstance(st, ast.AnnAssign) and isinstance(st.target, ast.Name) and st.value is not None
+            and isinstance(st.value, ast.Constant)}
+
+
+def fold_record_ctor_fields(repo: Repo, ci: Optional[ClassInfo], sf: Optional[SourceFile], fn: ast.FunctionDef) -> ast.FunctionDef:
+    """`_Field(b"BPM ", "<I", "initial_bpm").attribute` (a field read off a record built in place, as left by unrolling a loop over
+    a table of records) reads as the argument — or the constant default — that the field receives."""
+    sf = sf or (ci.file if ci is not None else None)
+    changed = False
+
+    class T(ast.NodeTransformer):
+        def visit_Attribute(self, node):
+            nonlocal changed
+            node = self.generic_visit(node)
+            c = node.value
+            if isinstance(node.ctx, ast.Load) and isinstance(c, ast.Call) and isinstance(c.func, (ast.Name, ast.Attribute)) \
+                    and not any(isinstance(a, ast.Starred) for a in c.args) and not any(k.arg is None for k in c.keywords):
+                try:
+                    fields = record_fields(repo, ci, sf, c.func)
+                except Exception:
+                    fields = None
+                if fields and node.attr in fields and len(c.args) <= len(fields):
+                    m = dict(zip(fields, c.args))
+                    for k in c.keywords:
+                        if k.arg in m or k.arg not in fields:
+                            return node
+                        m[k.arg] = k.value
+                    if node.attr not in m:
+                        d = record_defaults(repo, ci, sf, c.func)
+                        if node.attr not in d:
+                            return node
+                        m[node.attr] = d[node.attr]
+                    changed = True
+                    return ast.copy_location(copy.deepcopy(m[node.attr]), node)
+            return node
+    new = T().visit(copy.deepcopy(fn))
+    if not changed:
+        return fn
+    ast.fix_missing_locations(new)
+    number(new)
+    return new
 
 
 def record_constant(repo: Repo, ci: Optional[ClassInfo], sf: Optional[SourceFile], e: ast.expr, root: Optional[ast.AST] = None) -> Optional[ast.Call]:
@@ -4060,6 +4290,207 @@ def propagate_int_constants(fn: ast.FunctionDef) -> ast.FunctionDef:
     for n in ast.walk(new):
         if isinstance(getattr(n, "body", None), list) and not n.body and not isinstance(n, ast.Module):
             n.body = [ast.Pass()]
+    ast.fix_missing_locations(new)
+    number(new)
+    return new
+
+
+def _stmt_lists(fn: ast.FunctionDef):
+    """(statement list, enclosing loops, conditional?) for every statement list of fn (nested function bodies excluded)."""
+    out = []
+
+    def rec(stmts, loops, cond):
+        out.append((stmts, loops, cond))
+        for st in stmts:
+            if isinstance(st, (ast.FunctionDef, ast.AsyncFunctionDef, ast.ClassDef)):
+                continue
+            if isinstance(st, (ast.For, ast.AsyncFor, ast.While)):
+                rec(st.body, loops + [st], cond)
+                if st.orelse:
+                    rec(st.orelse, loops, True)
+            elif isinstance(st, ast.If):
+                rec(st.body, loops, True)
+                if st.orelse:
+                    rec(st.orelse, loops, True)
+            elif isinstance(st, (ast.With, ast.AsyncWith)):
+                rec(st.body, loops, cond)
+            elif isinstance(st, ast.Try):
+                rec(st.body, loops, True)
+                for h in st.handlers:
+                    rec(h.body, loops, True)
+                rec(st.orelse, loops, True)
+                rec(st.finalbody, loops, True)
+    rec(fn.body, [], False)
+    return out
+
+
+def expand_cached_locals(fn: ast.FunctionDef) -> ast.FunctionDef:
+    """Locals that only cache something for speed are read as what they cache:
+
+      * `end = (b"SEND", b"")`  (bound once to a display of constants)                          -> the display at each use
+      * `u32 = UINT32.pack`, `get_raw = module.get_raw`, `write = f.write`, `pack_n = Struct(fmt).pack`
+        (bound once to an attribute of a name / of a Struct(...) construction, and used only as the callee of calls)  -> the
+        attribute expression at each call.
+
+    Conditions (each keeps the rewriting exact): the local is bound exactly once, is not a parameter or loop variable, every use
+    comes after the binding in the same statement list or nested inside later statements of it, the names the cached expression
+    mentions are parameters never re-bound or bound exactly once before the cache is taken (a loop variable: the cache is taken
+    inside that loop), and the binding is not under a condition the uses are not under."""
+    stores: Dict[str, int] = {}
+    for n in ast.walk(fn):
+        if isinstance(n, ast.Name) and isinstance(n.ctx, (ast.Store, ast.Del)):
+            stores[n.id] = stores.get(n.id, 0) + 1
+        if isinstance(n, (ast.Global, ast.Nonlocal)):
+            for x in n.names:
+                stores[x] = stores.get(x, 0) + 2
+    params = {a.arg for a in fn.args.posonlyargs + fn.args.args + fn.args.kwonlyargs}
+    if fn.args.vararg:
+        params.add(fn.args.vararg.arg)
+    if fn.args.kwarg:
+        params.add(fn.args.kwarg.arg)
+    loop_targets = {m.id for n in ast.walk(fn) if isinstance(n, (ast.For, ast.AsyncFor, ast.comprehension)) for m in ast.walk(n.target) if isinstance(m, ast.Name)}
+
+    def is_const_display(v) -> bool:
+        if isinstance(v, ast.Tuple) and v.elts:
+            return all(isinstance(x, ast.Constant) or (isinstance(x, ast.UnaryOp) and isinstance(x.operand, ast.Constant)) for x in v.elts)
+        return False
+
+    def callee_chain(v):
+        """root names of `a.b.c` / `Struct(<args>).pack`; None when not of that form"""
+        if not isinstance(v, ast.Attribute):
+            return None
+        x = v
+        while isinstance(x, ast.Attribute):
+            x = x.value
+        if isinstance(x, ast.Name):
+            return {x.id}
+        if isinstance(x, ast.Call) and isinstance(x.func, (ast.Name, ast.Attribute)) and norm(x.func).split(".")[-1] == "Struct" and not x.keywords \
+                and v.attr in ("pack", "unpack", "unpack_from", "iter_unpack", "pack_into") and v.value is x:
+            if any(isinstance(m, (ast.Call, ast.Lambda, ast.Yield, ast.Await, ast.NamedExpr)) for a in x.args for m in ast.walk(a)
+                   if not (isinstance(m, ast.Call) and norm(m.func) == "len")):
+                return None
+            return {m.id for a in x.args for m in ast.walk(a) if isinstance(m, ast.Name) and m.id != "len"}
+        return None
+
+    lists = _stmt_lists(fn)
+    subst: Dict[str, ast.expr] = {}
+    drop: List[ast.stmt] = []
+    for stmts, loops, cond in lists:
+        for i, st in enumerate(stmts):
+            if not (isinstance(st, ast.Assign) and len(st.targets) == 1 and isinstance(st.targets[0], ast.Name)):
+                continue
+            nm, v = st.targets[0].id, st.value
+            if stores.get(nm) != 1 or nm in params or nm in loop_targets or nm in subst:
+                continue
+            kind = "const" if is_const_display(v) else None
+            roots: Set[str] = set()
+            if kind is None:
+                r = callee_chain(v)
+                if r is None:
+                    continue
+                kind, roots = "callee", r
+            uses = [n for n in ast.walk(fn) if isinstance(n, ast.Name) and n.id == nm and isinstance(n.ctx, ast.Load)]
+            if not uses:
+                continue
+            later = {id(x) for s2 in stmts[i + 1:] for x in ast.walk(s2)}
+            if not all(id(u) in later for u in uses):
+                continue
+            if kind == "callee":
+                callee_ids = {id(n.func) for n in ast.walk(fn) if isinstance(n, ast.Call)}
+                if not all(id(u) in callee_ids for u in uses):
+                    continue
+                ok = True
+                for r in roots:
+                    if r in ("self", "cls") and stores.get(r, 0) == 0:
+                        continue
+                    if r in params and stores.get(r, 0) == 0:
+                        continue
+                    if stores.get(r, 0) == 0 and r not in params:
+                        continue            # a module-level / builtin name
+                    if stores.get(r, 0) != 1 or r in params:
+                        ok = False
+                        break
+                    # bound once: the binding must come before the cache, and a loop that re-binds it must enclose the cache
+                    binder_loops = [lp for lp in ast.walk(fn) if isinstance(lp, (ast.For, ast.AsyncFor))
+                                    and any(isinstance(m, ast.Name) and m.id == r for m in ast.walk(lp.target))]
+                    if binder_loops:
+                        if not any(lp is x for lp in binder_loops for x in loops):
+                            ok = False
+                            break
+                    else:
+                        bpos = [pos(n) for n in ast.walk(fn) if isinstance(n, ast.Name) and n.id == r and isinstance(n.ctx, ast.Store)]
+                        if not bpos or bpos[0] > pos(st):
+                            ok = False
+                            break
+                        # bound inside a loop the cache is not in
+                        for lp in ast.walk(fn):
+                            if isinstance(lp, (ast.For, ast.AsyncFor, ast.While)) and any(isinstance(m, ast.Name) and m.id == r and isinstance(m.ctx, ast.Store)
+                                                                                          for b in lp.body for m in ast.walk(b)) \
+                                    and not any(lp is x for x in loops):
+                                ok = False
+                if not ok:
+                    continue
+            subst[nm] = v
+            drop.append(st)
+    if not subst:
+        return fn
+    new = copy.deepcopy(fn)
+    texts = {norm(d) for d in drop}
+
+    class X(ast.NodeTransformer):
+        def visit_Assign(self, node):
+            if len(node.targets) == 1 and isinstance(node.targets[0], ast.Name) and node.targets[0].id in subst and norm(node) in texts:
+                return None
+            return self.generic_visit(node)
+
+        def visit_Name(self, node):
+            if isinstance(node.ctx, ast.Load) and node.id in subst:
+                return ast.copy_location(copy.deepcopy(subst[node.id]), node)
+            return node
+    for _ in range(3):          # a cache may be taken from another cache (`pack = codec.pack` after `codec = Struct(F)` is not: only names)
+        new = X().visit(new)
+    for n in ast.walk(new):
+        for f_ in ("body", "orelse", "finalbody"):
+            if isinstance(getattr(n, f_, None), list) and f_ == "body" and not n.body and not isinstance(n, ast.Module):
+                n.body = [ast.Pass()]
+    ast.fix_missing_locations(new)
+    number(new)
+    return new
+
+
+def desugar_scan_loops(fn: ast.FunctionDef) -> ast.FunctionDef:
+    """`for v in X: if T(v): <S>; break`  (no else, <S> does not read v, T has no call besides pure builtins)  is
+    `if any(T(v) for v in X): <S>`: the loop only asks whether some element satisfies T."""
+    changed = False
+
+    class L(ast.NodeTransformer):
+        def visit_For(self, node):
+            nonlocal changed
+            node = self.generic_visit(node)
+            if node.orelse or len(node.body) != 1 or not isinstance(node.body[0], ast.If) or node.body[0].orelse:
+                return node
+            if not isinstance(node.target, ast.Name):
+                return node
+            iff = node.body[0]
+            if not iff.body or not isinstance(iff.body[-1], ast.Break):
+                return node
+            rest = iff.body[:-1]
+            v = node.target.id
+            if any(isinstance(m, ast.Name) and m.id == v for s in rest for m in ast.walk(s)):
+                return node
+            if any(isinstance(m, (ast.Break, ast.Continue)) for s in rest for m in ast.walk(s)):
+                return node
+            if any(isinstance(m, ast.Call) and norm(m.func) not in ("len", "isinstance", "abs", "int") for m in ast.walk(iff.test)):
+                return node
+            if any(isinstance(m, (ast.NamedExpr, ast.Yield, ast.Await)) for m in ast.walk(iff.test)):
+                return node
+            changed = True
+            gen = ast.GeneratorExp(elt=iff.test, generators=[ast.comprehension(target=ast.Name(id=v, ctx=ast.Store()), iter=node.iter, ifs=[], is_async=0)])
+            test = ast.Call(func=ast.Name(id="any", ctx=ast.Load()), args=[gen], keywords=[])
+            return ast.copy_location(ast.If(test=test, body=rest or [ast.Pass()], orelse=[]), node)
+    new = L().visit(copy.deepcopy(fn))
+    if not changed:
+        return fn
     ast.fix_missing_locations(new)
     number(new)
     return new
